@@ -94,4 +94,348 @@ theorem C11_matches_spec (name fmt : Str) :
     | .error _ => Spec.formatName name fmt = .malformed :=
   formatName_spec name fmt
 
+/-- the standard format on the standard example, through the model and through the reference -/
+theorem C11_matches_spec_nonvacuous :
+    formatName exName "{ff~}{vv~}{ll}{, jj}".toList
+      = .ok ("Charles Louis Xavier~Joseph de~la Vall{\\'e}e~Poussin".toList, false) ∧
+    Spec.formatName exName "{ff~}{vv~}{ll}{, jj}".toList
+      = .ok "Charles Louis Xavier~Joseph de~la Vall{\\'e}e~Poussin".toList ∧
+    Spec.formatName exName "{f.~}{vv~}{ll}{, jj}".toList
+      = .ok "C.~L. X.~J. de~la Vall{\\'e}e~Poussin".toList ∧
+    Spec.formatName exName "{ff~}{vv~}{lll}".toList = .malformed := by
+  have h1 : formatName exName "{ff~}{vv~}{ll}{, jj}".toList
+      = .ok ("Charles Louis Xavier~Joseph de~la Vall{\\'e}e~Poussin".toList, false) := by
+    decide +kernel
+  have h2 : formatName exName "{f.~}{vv~}{ll}{, jj}".toList
+      = .ok ("C.~L. X.~J. de~la Vall{\\'e}e~Poussin".toList, false) := by decide +kernel
+  have h3 : formatName exName "{ff~}{vv~}{lll}".toList = .error .illegalLetters := by
+    decide +kernel
+  exact ⟨h1, formatName_spec_ok h1, formatName_spec_ok h2, formatName_spec_illegal h3⟩
+
+/-- The grammar read generatively.  For every well-formed shape `ps` — level-0 characters and
+parts `{pre letters {sep} post}` with pre/post made of verbatim characters and balanced
+groups, a balanced separator (or none, and then the post-text does not begin with a group),
+and no separator or post-text without letters — the format string `render ps` is well-formed,
+is read back as exactly `ps`, and `format_name` yields the formatting rule applied to `ps`
+itself.  So for format strings written from the grammar the reader need not trust the
+reference *parser*: printer and rule suffice. -/
+theorem C11_grammar_roundtrip (ps : List Piece) (h : ∀ p ∈ ps, p.wf = true) :
+    Spec.wellformed (render ps) = true ∧ parse (render ps) = some ps ∧
+    ∀ name, formatName name (render ps) =
+      match mkPerson name [] [] [] [] [] with
+      | .error _ => .error .tooDeep
+      | .ok (person, rep) =>
+        match formatPieces person ps with
+        | some s => .ok (s, rep)
+        | none => .error .tooDeep := by
+  refine ⟨?_, parse_render ps h, fun name => formatName_render name ps h⟩
+  have hp := parse_eq (render ps)
+  rw [parse_render ps h] at hp
+  rw [okRest_wellformed]
+  cases hpf : parseFormat (render ps) with
+  | error e => rw [hpf] at hp; cases hp
+  | ok parts => rfl
+
+theorem C11_grammar_roundtrip_nonvacuous :
+    (∀ p ∈ [Piece.part ⟨"{ }".toList, some ⟨.first, true⟩, none, "~{ }".toList⟩,
+            Piece.ch ' ',
+            Piece.part ⟨[], some ⟨.von, false⟩, some "-".toList, ".~".toList⟩,
+            Piece.part ⟨", ".toList, none, none, []⟩], p.wf = true) ∧
+    render [Piece.part ⟨"{ }".toList, some ⟨.first, true⟩, none, "~{ }".toList⟩,
+            Piece.ch ' ',
+            Piece.part ⟨[], some ⟨.von, false⟩, some "-".toList, ".~".toList⟩,
+            Piece.part ⟨", ".toList, none, none, []⟩] = "{{ }ff~{ }} {v{-}.~}{, }".toList := by
+  decide
+
+/-! ### clause by clause -/
+
+/-- Brace-level-0 text is copied verbatim: a brace-free prefix `t` of the format string is put
+in front of whatever the rest of the format string yields (same error, same report flag). -/
+theorem C11_level0_verbatim (name t rest : Str) (ht : ∀ c ∈ t, c ≠ '{' ∧ c ≠ '}') :
+    formatName name (t ++ rest) =
+      match formatName name rest with
+      | .ok (s, rep) => .ok (t ++ s, rep)
+      | .error e => .error e := by
+  rw [formatName_text_append name t rest ht]
+  cases formatName name rest with
+  | error e => rfl
+  | ok p => rfl
+
+theorem C11_level0_verbatim_nonvacuous :
+    formatName exName "abc def {f~} xyz {f}?".toList
+      = .ok ("abc def C.~L. X.~J  xyz C.~L. X.~J?".toList, false) := by decide +kernel
+
+/-- A format string without braces is returned as it is (the name is still split, so a name
+beyond the nesting limit is an error). -/
+theorem C11_level0_only (name t : Str) (ht : ∀ c ∈ t, c ≠ '{' ∧ c ≠ '}') :
+    formatName name t =
+      match mkPerson name [] [] [] [] [] with
+      | .ok (_, rep) => .ok (t, rep)
+      | .error _ => .error .tooDeep := by
+  have h := formatName_text_append name t [] ht
+  rw [List.append_nil] at h
+  rw [h, formatName_eq_finish, parseFormat_nil]
+  unfold finishName
+  simp only
+  cases hm : mkPerson name [] [] [] [] [] with
+  | error e => have := (mkPerson_error hm).1; subst this; rfl
+  | ok pr => obtain ⟨person, rep⟩ := pr; simp [formatParts, prepend]
+
+theorem C11_level0_only_nonvacuous :
+    formatName exName "et al., 1999".toList = .ok ("et al., 1999".toList, false) := by decide +kernel
+
+/-- A part with letters whose name part (first+middle / von / last / jr) is empty contributes
+nothing — not even its pre- and post-text or a tie. -/
+theorem C11_part_omitted_when_empty (person : Person) (pre run : Str) (delim : Option Str)
+    (post : Str) (l : Letters) (hl : decodeLetters run = some l)
+    (he : tokens person l.slot = []) :
+    formatPart person pre (some run) delim post = .ok [] :=
+  formatPart_empty person pre run delim post l hl he
+
+theorem C11_part_omitted_when_empty_nonvacuous :
+    decodeLetters "jj".toList = some ⟨.jr, true⟩ ∧ tokens exPerson .jr = [] ∧
+    formatPart exPerson ", ".toList (some "jj".toList) none "~".toList = .ok [] := by decide +kernel
+
+/-- … and only then, as soon as the part has anything to show: a pre-text, a post-text, or —
+shown in full — a non-empty token. -/
+theorem C11_part_omitted_iff_empty (person : Person) (pre run : Str) (delim : Option Str)
+    (post : Str) (l : Letters) (hl : decodeLetters run = some l)
+    (hvis : pre ≠ [] ∨ post ≠ [] ∨ (l.full = true ∧ ∃ t ∈ tokens person l.slot, t ≠ [])) :
+    formatPart person pre (some run) delim post = .ok [] ↔ tokens person l.slot = [] := by
+  refine ⟨fun h => ?_, formatPart_empty person pre run delim post l hl⟩
+  by_cases hne : tokens person l.slot = []
+  · exact hne
+  · exfalso
+    rw [formatPart_body person pre run delim post l hl hne] at h
+    cases hb : body l delim (tokens person l.slot) with
+    | none => rw [hb] at h; cases h
+    | some b =>
+      rw [hb] at h
+      simp only [Option.bind_some] at h
+      cases hw : withPost (pre ++ b) post with
+      | none => rw [hw] at h; cases h
+      | some out =>
+        rw [hw] at h
+        have hout : out = [] := by cases h; rfl
+        subst hout
+        obtain ⟨h1, h2⟩ := withPost_length hw
+        have hpre : pre = [] ∧ b = [] := by
+          simp only [List.length_append, List.length_nil] at h1
+          exact ⟨List.eq_nil_of_length_eq_zero (by omega), List.eq_nil_of_length_eq_zero (by omega)⟩
+        rcases hvis with hv | hv | ⟨hf, ht⟩
+        · exact hv hpre.1
+        · exact h2 hv rfl
+        · exact body_full_ne_nil hf hb ht hpre.2
+
+theorem C11_part_omitted_iff_empty_nonvacuous :
+    decodeLetters "vv".toList = some ⟨.von, true⟩ ∧ tokens exPerson .von ≠ [] ∧
+    formatPart exPerson [] (some "vv".toList) none "~".toList = .ok "de~la ".toList := by
+  decide +kernel
+
+/-- For a person made from a name string no token is empty, so a part shown in full is
+omitted exactly when its name part is empty. -/
+theorem C11_part_omitted_iff_empty_full (name : Str) (person : Person) (rep : Bool)
+    (hp : mkPerson name [] [] [] [] [] = .ok (person, rep))
+    (pre run : Str) (delim : Option Str) (post : Str) (l : Letters)
+    (hl : decodeLetters run = some l) (hf : l.full = true) :
+    formatPart person pre (some run) delim post = .ok [] ↔ tokens person l.slot = [] := by
+  refine ⟨fun h => ?_, formatPart_empty person pre run delim post l hl⟩
+  cases ht : tokens person l.slot with
+  | nil => rfl
+  | cons t r =>
+    have hne : t ≠ [] := mkPerson_tokens_ne_nil hp l.slot t (by rw [ht]; simp)
+    have := (C11_part_omitted_iff_empty person pre run delim post l hl
+      (Or.inr (Or.inr ⟨hf, t, by rw [ht]; simp, hne⟩))).1 h
+    rw [ht] at this; cases this
+
+theorem C11_part_omitted_iff_empty_full_nonvacuous :
+    mkPerson exName [] [] [] [] [] = .ok (exPerson, false) ∧
+    decodeLetters "LL".toList = some ⟨.last, true⟩ := by
+  exact ⟨exPerson_eq, by decide⟩
+
+/-- Why the visibility hypothesis of `C11_part_omitted_iff_empty` is needed for abbreviated
+parts: a token without any letter abbreviates to nothing (as in BibTeX), so `{f}` shows nothing
+for the name "1 Smith" although its first-name part is not empty. -/
+theorem C11_part_omitted_letterless_witness :
+    mkPerson "1 Smith".toList [] [] [] [] [] =
+      .ok ({ first := ["1".toList], last := ["Smith".toList] }, false) ∧
+    formatPart { first := ["1".toList], last := ["Smith".toList] } [] (some "f".toList) none []
+      = .ok [] := by decide +kernel
+
+/-- Full versus abbreviated form, on a name part with a single token `t` (no separator is
+involved) and a post-text without tie directive: `ff` shows the token, `f` its abbreviation —
+the first letter or special character of each hyphen-separated piece, joined by `.-` or by
+the explicit separator (`Spec.NameFormat.abbreviate`). -/
+theorem C11_full_vs_abbrev (person : Person) (pre run : Str) (delim : Option Str) (post : Str)
+    (l : Letters) (hl : decodeLetters run = some l) (t : Str)
+    (ht : tokens person l.slot = [t]) (hpost : post.getLast? ≠ some '~') :
+    formatPart person pre (some run) delim post =
+      if l.full then .ok (pre ++ t ++ post)
+      else match abbreviate delim t with
+        | some a => .ok (pre ++ a ++ post)
+        | none => .error .tooDeep := by
+  have hne : tokens person l.slot ≠ [] := by rw [ht]; simp
+  have hk := trailingTies_of_getLast hpost
+  rw [formatPart_body person pre run delim post l hl hne, ht]
+  cases hf : l.full
+  · simp only [body, shownTokens, hf, Bool.false_eq_true, if_false, List.mapM_cons, List.mapM_nil]
+    cases abbreviate delim t with
+    | none => rfl
+    | some a =>
+      cases delim with
+      | none => simp [joinShown, joinDefault_one, withPost_plain hk, ofOpt]
+      | some s => simp [joinShown, joinWith, withPost_plain hk, ofOpt]
+  · simp only [body, shownTokens, hf, if_true, Option.bind_some]
+    cases delim with
+    | none => simp [joinShown, joinDefault_one, withPost_plain hk, ofOpt]
+    | some s => simp [joinShown, joinWith, withPost_plain hk, ofOpt]
+
+theorem C11_full_vs_abbrev_nonvacuous :
+    decodeLetters "f".toList = some ⟨.first, false⟩ ∧
+    tokens { first := ["Jean-Pierre".toList], last := ["Hansen".toList] } .first = ["Jean-Pierre".toList] ∧
+    abbreviate none "Jean-Pierre".toList = some "J.-P".toList ∧
+    abbreviate (some []) "Jean-Pierre".toList = some "JP".toList ∧
+    formatPart { first := ["Jean-Pierre".toList], last := ["Hansen".toList] } [] (some "f".toList) none ".".toList
+      = .ok "J.-P.".toList ∧
+    formatPart { first := ["Jean-Pierre".toList], last := ["Hansen".toList] } [] (some "ff".toList) none " ".toList
+      = .ok "Jean-Pierre ".toList := by decide +kernel
+
+/-- An explicit separator is a plain join of the shown tokens (no ties). -/
+theorem C11_explicit_separator (person : Person) (pre run sep post : Str)
+    (l : Letters) (hl : decodeLetters run = some l)
+    (hne : tokens person l.slot ≠ []) (hpost : post.getLast? ≠ some '~') :
+    formatPart person pre (some run) (some sep) post =
+      if l.full then .ok (pre ++ joinWith sep (tokens person l.slot) ++ post)
+      else match (tokens person l.slot).mapM (abbreviate (some sep)) with
+        | some ws => .ok (pre ++ joinWith sep ws ++ post)
+        | none => .error .tooDeep := by
+  have hk := trailingTies_of_getLast hpost
+  rw [formatPart_body person pre run (some sep) post l hl hne]
+  cases hf : l.full
+  · simp only [body, shownTokens, hf, Bool.false_eq_true, if_false]
+    cases (tokens person l.slot).mapM (abbreviate (some sep)) with
+    | none => rfl
+    | some ws => simp [joinShown, withPost_plain hk, ofOpt]
+  · simp [body, shownTokens, hf, joinShown, withPost_plain hk, ofOpt]
+
+theorem C11_explicit_separator_nonvacuous :
+    decodeLetters "ff".toList = some ⟨.first, true⟩ ∧ tokens exPerson .first ≠ [] ∧
+    formatPart exPerson [] (some "ff".toList) (some "-".toList) []
+      = .ok "Charles-Louis-Xavier-Joseph".toList ∧
+    formatPart exPerson [] (some "f".toList) (some []) [] = .ok "CLXJ".toList := by decide +kernel
+
+/-- The default separator.  `ws` are the tokens as shown (the tokens themselves for `ff`, their
+abbreviations for `f`); the tie is `~` resp. `.~`, the space a blank resp. `. `.  One token:
+as it is; two tokens: a tie between them; three or more: after the first token a tie if its
+text length is less than three and a space otherwise, spaces between the middle tokens, a tie
+before the last token. -/
+theorem C11_default_separator (person : Person) (pre run post : Str)
+    (l : Letters) (hl : decodeLetters run = some l)
+    (hne : tokens person l.slot ≠ []) (hpost : post.getLast? ≠ some '~')
+    (ws : List Str) (hws : shownTokens l.full none (tokens person l.slot) = some ws)
+    (tie space : Str) (htie : tie = if l.full then ['~'] else ['.', '~'])
+    (hspace : space = if l.full then [' '] else ['.', ' ']) :
+    (∀ a, ws = [a] → formatPart person pre (some run) none post = .ok (pre ++ a ++ post)) ∧
+    (∀ a z, ws = [a, z] →
+      formatPart person pre (some run) none post = .ok (pre ++ a ++ tie ++ z ++ post)) ∧
+    (∀ a m mid z, ws = a :: m :: mid ++ [z] →
+      formatPart person pre (some run) none post =
+        match bibtexLen a with
+        | some n => .ok (pre ++ a ++ (if n < 3 then tie else space) ++ joinWith space (m :: mid)
+                          ++ tie ++ z ++ post)
+        | none => .error .tooDeep) := by
+  have hk := trailingTies_of_getLast hpost
+  have hb : formatPart person pre (some run) none post =
+      ofOpt ((joinDefault ws tie space).bind fun b => withPost (pre ++ b) post) := by
+    rw [formatPart_body person pre run none post l hl hne]
+    simp only [body, hws, Option.bind_some, joinShown]
+    cases hf : l.full <;> simp [hf, htie, hspace]
+  rw [hb]
+  refine ⟨?_, ?_, ?_⟩
+  · rintro a rfl
+    simp [joinDefault_one, withPost_plain hk, ofOpt]
+  · rintro a z rfl
+    simp [joinDefault_two, withPost_plain hk, ofOpt]
+  · rintro a m mid z rfl
+    rw [joinDefault_many]
+    cases bibtexLen a with
+    | none => rfl
+    | some n => simp [withPost_plain hk, ofOpt]
+
+theorem C11_default_separator_nonvacuous :
+    decodeLetters "ff".toList = some ⟨.first, true⟩ ∧
+    shownTokens true none (tokens exPerson .first)
+      = some ("Charles".toList :: "Louis".toList :: ["Xavier".toList] ++ ["Joseph".toList]) ∧
+    formatPart exPerson [] (some "ff".toList) none []
+      = .ok "Charles Louis Xavier~Joseph".toList ∧
+    shownTokens false none (tokens exPerson .first)
+      = some ("C".toList :: "L".toList :: ["X".toList] ++ ["J".toList]) ∧
+    formatPart exPerson [] (some "f".toList) none [] = .ok "C.~L. X.~J".toList ∧
+    formatPart exPerson [] (some "vv".toList) none [] = .ok "de~la".toList := by decide +kernel
+
+/-- Discretionary ties.  `core` is a post-text without tie directive and `out` what the part
+yields with it.  With one more `~` the part yields `out` followed by a tie if the text length
+of `out` is less than three and by a blank otherwise; with `~~` it yields `out` followed by a
+tie; an error stays the same error. -/
+theorem C11_discretionary_tie (person : Person) (pre run : Str) (delim : Option Str) (core : Str)
+    (l : Letters) (hl : decodeLetters run = some l)
+    (hne : tokens person l.slot ≠ []) (hcore : core.getLast? ≠ some '~') :
+    (∀ out, formatPart person pre (some run) delim core = .ok out →
+      formatPart person pre (some run) delim (core ++ ['~']) =
+        (match bibtexLen out with
+         | some n => .ok (out ++ if n < 3 then ['~'] else [' '])
+         | none => .error .tooDeep) ∧
+      formatPart person pre (some run) delim (core ++ ['~', '~']) = .ok (out ++ ['~'])) ∧
+    (∀ e, formatPart person pre (some run) delim core = .error e →
+      formatPart person pre (some run) delim (core ++ ['~']) = .error e ∧
+      formatPart person pre (some run) delim (core ++ ['~', '~']) = .error e) := by
+  have hk := trailingTies_of_getLast hcore
+  rw [formatPart_body person pre run delim core l hl hne,
+    formatPart_body person pre run delim (core ++ ['~']) l hl hne,
+    formatPart_body person pre run delim (core ++ ['~', '~']) l hl hne]
+  cases body l delim (tokens person l.slot) with
+  | none =>
+    refine ⟨(fun out h => nomatch h), fun e h => ?_⟩
+    cases h; exact ⟨rfl, rfl⟩
+  | some b =>
+    simp only [Option.bind_some, withPost_plain hk, withPost_one hk, withPost_two hk, ofOpt]
+    refine ⟨fun out h => ?_, fun e h => nomatch h⟩
+    cases h
+    refine ⟨?_, by simp⟩
+    cases bibtexLen (pre ++ b ++ core) with
+    | none => rfl
+    | some n => simp
+
+theorem C11_discretionary_tie_nonvacuous :
+    decodeLetters "ll".toList = some ⟨.last, true⟩ ∧ tokens exPerson .last ≠ [] ∧
+    formatPart exPerson [] (some "ll".toList) none [] = .ok "Vall{\\'e}e~Poussin".toList ∧
+    formatPart exPerson [] (some "ll".toList) none "~".toList = .ok "Vall{\\'e}e~Poussin ".toList ∧
+    formatPart exPerson [] (some "ll".toList) none "~~".toList = .ok "Vall{\\'e}e~Poussin~".toList ∧
+    formatName "A Smith".toList "{f~}{ll}".toList = .ok ("A~Smith".toList, false) := by
+  decide +kernel
+
+/-- A part without letters: its text acts as post-text, so the same tie directives apply to
+the text itself. -/
+theorem C11_discretionary_tie_no_letters (person : Person) (core : Str)
+    (hcore : core.getLast? ≠ some '~') :
+    formatPart person core none none [] = .ok core ∧
+    formatPart person (core ++ ['~']) none none [] =
+      (match bibtexLen core with
+       | some n => .ok (core ++ if n < 3 then ['~'] else [' '])
+       | none => .error .tooDeep) ∧
+    formatPart person (core ++ ['~', '~']) none none [] = .ok (core ++ ['~']) := by
+  have hk := trailingTies_of_getLast hcore
+  rw [formatPart_none, formatPart_none, formatPart_none]
+  simp only [Spec.NameFormat.formatPart, withPost_plain hk, withPost_one hk, withPost_two hk,
+    List.nil_append, ofOpt]
+  refine ⟨trivial, ?_, trivial⟩
+  cases bibtexLen core with
+  | none => rfl
+  | some n => simp
+
+theorem C11_discretionary_tie_no_letters_nonvacuous :
+    formatName exName "{, ~}".toList = .ok (", ~".toList, false) ∧
+    formatName exName "{ -- 1999~}".toList = .ok (" -- 1999 ".toList, false) := by
+  decide +kernel
+
 end Pybtex.Props
